@@ -295,3 +295,16 @@ Definition api_step (decodable : list N -> bool) (st : chan * sock) (o : apiop) 
   end.
 
 Definition empty_sock : sock := mksock [] false [] [].
+
+(** The byte stream arrives in arbitrary chunks; after each arrival the owner
+    gets a READABLE event and runs its loop.  Collects everything the owner
+    saw (messages and errors), in order. *)
+Fixpoint feed (decodable : list N -> bool) (fuel : nat) (c : chan) (s : sock)
+         (chunks : list (list N)) : list (res (list N)) :=
+  match chunks with
+  | [] => []
+  | ch :: rest =>
+    let s1 := mksock (inq s ++ ch) (ineof s) (wsched s) (outq s) in
+    let '(c2, s2, out) := owner_turn decodable fuel (handle_events c true false) s1 in
+    out ++ feed decodable fuel c2 s2 rest
+  end.
